@@ -40,12 +40,16 @@ def ops_for(rng: random.Random, c, nmax: int) -> list[list[dict]]:
     n = rng.randint(2, max(2, nmax // 2))
     seqs.append([{"op": "split", "p": p, "q": q, "n": n, "check_model": int(n <= 6)},
                  {"op": "split", "p": p2, "q": q2, "n": rng.randint(1, n), "check_model": 0}])
+    # the die used again after a request it refuses (limit below sqrt 2, or no region asked for): seeded C11-10
+    p, q = rng.choice(RATIOS)
+    bad = rng.choice([{"op": "refused", "p": 6, "q": 5, "n": rng.randint(1, 6)}, {"op": "refused", "p": p, "q": q, "n": 0}])
+    n = rng.randint(2, nmax)
+    seqs.append([bad, {"op": "split", "p": p, "q": q, "n": n, "check_model": int(n <= 6)}])
     if empty:
         for _ in range(3):
-            nr, nc = rng.choice([1, 2, 4, 8]), rng.choice([1, 2, 4, 8])
-            if nr + nc > 2:
-                seqs.append([{"op": "grid", "nr": nr, "nc": nc},
-                             {"op": "split", "p": 3, "q": 2, "n": nr * nc + rng.randint(0, 5), "check_model": 0}])
+            nr, nc = rng.choice([1, 2, 4, 8]), rng.choice([1, 2, 4, 8])   # "all grid shapes": the one-cell grid too
+            seqs.append([{"op": "grid", "nr": nr, "nc": nc},
+                         {"op": "split", "p": 3, "q": 2, "n": nr * nc + rng.randint(0, 5), "check_model": 0}])
         # request histories on one die object: a request that changes nothing (a loose limit, one region), then a grid whose
         # cells are elongated, then a request whose count the grid already meets: only the limit makes it cut (seeded C11-7:
         # a summary of the regions remembered from an earlier request must not answer a later one)
@@ -83,8 +87,6 @@ def near_limit_cases(rng: random.Random) -> list[dict]:
     for _ in range(64):
         a, b = rng.randint(2, 9), rng.randint(2, 9)
         nr, nc = rng.choice([1, 2, 4, 8]), rng.choice([1, 2, 4, 8])
-        if nr + nc == 2:
-            nc = 2
         ops = [{"op": "grid", "nr": nr, "nc": nc}]
         u = rng.random()
         if u < 0.4:
@@ -95,6 +97,16 @@ def near_limit_cases(rng: random.Random) -> list[dict]:
             if u < 0.6 and max(a, b) <= 4 * min(a, b):
                 ops.insert(0, {"op": "split", "p": 4, "q": 1, "n": 1, "check_model": 0})
         out.append({"mregs": [], "mdw": 32 * a, "mdh": 32 * b, "embs": list(ORIGIN0), "ops": ops})
+    return out
+
+
+def one_cell_grids(rng: random.Random) -> list[dict]:
+    """the one-cell grid (always part of the run, in both tiers): one region equal to the die, then an ordinary request"""
+    out = []
+    for (a, b) in ((4, 4), (3, 7), (9, 2)):
+        p, q = rng.choice(RATIOS)
+        out.append({"mregs": [], "mdw": 32 * a, "mdh": 32 * b, "embs": list(ORIGIN0),
+                    "ops": [{"op": "grid", "nr": 1, "nc": 1}, {"op": "split", "p": p, "q": q, "n": rng.randint(1, 6), "check_model": 0}]})
     return out
 
 
@@ -140,7 +152,7 @@ def run(ctx: Ctx) -> int:
     if tier == "quick":
         rng.shuffle(nl)
         nl = nl[:220]
-    cases += nl
+    cases += nl + one_cell_grids(rng)
     ctx.extra["descriptions"] = len(gen) + nrand
     ctx.extra["near_limit_and_empty_dies"] = len(nl)
     decide(ctx, cases)
